@@ -990,7 +990,7 @@ class SpecGen:
                     n["attrs"].append({"name": self.name("branches"), "kind": "graphs",
                                        "value": [self.graph(depth - 1, vis, unsorted_ok) for _ in range(rng.randrange(1, 3))]})  # fmt: skip
             self.metas(n, 0.2)
-            if rng.random() < 0.01:
+            if rng.random() < 0.03:
                 n["unname"] = True
             if self.nconfigs and rng.random() < 0.3:
                 cands = [x for x in n["inputs"] if x is not None] + [o["name"] for o in n["outs"]]
@@ -1420,8 +1420,8 @@ def compare_cases(ctx: Ctx, results):
                          {"spec": spec}, oc, r["outcome"])  # fmt: skip
             continue
         if oc["r"] == "raised":
-            cm, _ = canon(o["world"], r["roots"], drop_uses_from=r["n0"])
-            ci, _ = canon(r["world1"], r["roots"], drop_uses_from=r["n0"])
+            cm, _ = canon(o["world"], r["roots"])
+            ci, _ = canon(r["world1"], r["roots"])
             if cm != ci:
                 ctx.disagree("heap after a raising clone", {"spec": spec}, first_diff(cm, ci), None)
             continue
